@@ -84,6 +84,42 @@ def exportAmpFiles (dT dC : Data) (f : Rat) (indsT indsC : List (List Nat)) : Am
   { spikesAmps := sa, templatesAmps := ta, templatesWaveforms := exportWaveformsOpt tv indsT,
     clustersAmps := ca, clustersWaveforms := exportWaveformsOpt cv indsC }
 
+/-! ### the same files, the per-id table computed ONCE
+
+`get_amplitudes_true` computes `templates_amps_au` (and the unwhitened waveforms) once (model.py:1139-1144) and then
+indexes it with the spike assignment (model.py:1146).  The C09 definitions `spikeAmps` / `ampsV` / `rescaled` re-state
+`ampsAu d` at every use, which the compiled driver re-evaluates per SPIKE: fine for a handful of spikes, quadratic-like on
+a long recording (tens of thousands of spikes: the counts around `get_depths`' batch the harness generates).
+`amplitudesTrueOnce` is the same computation with the table bound once; `amplitudesTrueOnce_eq` (below, by `rfl`)
+says it IS `amplitudesTrue`, so every theorem about `exportAmpFiles` speaks about what the driver runs. -/
+
+/-- `get_amplitudes_true(sample2unit=f)` with `templates_wfs` / `templates_amps_au` / `spike_amps` each bound once, in the
+order of model.py:1139-1172 -/
+def amplitudesTrueOnce (d : Data) (f : Rat) : List Rat × List (Option Mat) × List (Option Rat) :=
+  let uw := unwhitened d                                                     -- model.py:1139-1142
+  let au := uw.map fun W => listMax (chAmps W)                               -- model.py:1144
+  let sa := (d.spikes.zip d.amplitudes).map fun p => au.getD p.1 0 * p.2     -- model.py:1146
+  let n := d.wfsW.length
+  let av : List (Option Rat) := ((bincountW d.spikes sa n).zip (bincountN d.spikes n)).map fun p =>
+    if p.2 = 0 then none else some (p.1 / p.2)                               -- model.py:1149-1151
+  let ru : List (Option Mat) := (uw.zip (av.zip au)).map fun p =>            -- model.py:1153-1154
+    match p.2.1 with
+    | none => none
+    | some v => if p.2.2 = 0 then none else some (p.1.map fun row => row.map (· * (v / p.2.2)))
+  (sa.map (· * f), ru.map (fun o => o.map fun W => scaleMat W f), av.map fun o => o.map (· * f))
+
+theorem amplitudesTrueOnce_eq (d : Data) (f : Rat) : amplitudesTrueOnce d f = amplitudesTrue d f := rfl
+
+/-- `exportAmpFiles` on `amplitudesTrueOnce` (what the driver op `amp_files` evaluates) -/
+def exportAmpFilesOnce (dT dC : Data) (f : Rat) (indsT indsC : List (List Nat)) : AmpFiles :=
+  let (sa, tv, ta) := amplitudesTrueOnce dT f
+  let (_, cv, ca) := amplitudesTrueOnce dC f
+  { spikesAmps := sa, templatesAmps := ta, templatesWaveforms := exportWaveformsOpt tv indsT,
+    clustersAmps := ca, clustersWaveforms := exportWaveformsOpt cv indsC }
+
+theorem exportAmpFilesOnce_eq (dT dC : Data) (f : Rat) (indsT indsC : List (List Nat)) :
+    exportAmpFilesOnce dT dC f indsT indsC = exportAmpFiles dT dC f indsT indsC := rfl
+
 /-- `clusters.peakToTrough` (alf.py:184-189): `waveform_duration = model.clusters_waveforms_durations` (C09
 `waveformDurations`, milliseconds), `waveform_duration[nan_idx] = nan` -/
 def exportPeakToTrough (wfsC : List Mat) (rate : Rat) (nanIdx : List Nat) : List (Option Rat) :=
